@@ -14,6 +14,7 @@ sys.setrecursionlimit(20000)
 
 
 LIBC_CONSTS = {'libc::SIG_DFL': (0, 64, False), 'libc::SIG_IGN': (1, 64, False), 'libc::SIGHUP': (1, 32, True), 'libc::SIGINT': (2, 32, True),
+               'libc::STDIN_FILENO': (0, 32, True), 'libc::STDOUT_FILENO': (1, 32, True), 'libc::STDERR_FILENO': (2, 32, True),
                'libc::SIGQUIT': (3, 32, True), 'libc::SIGTERM': (15, 32, True), 'libc::SIGKILL': (9, 32, True), 'libc::SIGPIPE': (13, 32, True)}
 
 
@@ -199,6 +200,7 @@ class Machine:
         self.trait_impls = {}     # (trait_last, self_last, method) -> [mir name]
         self.derived_impls = set()
         self.crate_overrides = set()
+        self.env_patterns = []   # (compiled regex over crate function names, handler): harness-installed environment boundary
         self._build_impl_index()
         self.enum_cache = {}
         self.adt_cache = {}
@@ -350,6 +352,9 @@ class Machine:
                     return ('env', self.env[k], c)
             if c.key in self.models and c.key in self.crate_overrides:
                 return ('model', self.models[c.key], c)
+            for (rx, hnd) in self.env_patterns:
+                if rx.match(key) or rx.match(c.key):
+                    return ('env', hnd, c)
             # inherent alias names for env lookup
             for alias, nm in self.inherent_alias.items():
                 if nm == cand and alias in self.env:
@@ -849,7 +854,13 @@ class Path:
         raise Unsupported('named const %s' % path)
 
     def static_ref(self, alloc, ty):
-        raise Unsupported('static allocation %s: %s' % (alloc, ty))
+        """reference to a static: an opaque per-path cell (atomics / locks are modelled at their API)"""
+        cells = self.state.setdefault('statics', {})
+        c = cells.get(alloc)
+        if c is None:
+            c = Cell(BoxV(None, 'static'))
+            cells[alloc] = c
+        return Ref(c, None)
 
     def not_(self, v):
         if v.w == 0:
@@ -964,7 +975,7 @@ class Path:
             return v
         if kind.startswith('PointerCoercion(ReifyFnPointer') or kind.startswith('PointerCoercion(ClosureFnPointer'):
             return v
-        if kind.startswith('PointerCoercion(MutToConstPointer') or kind == 'PtrToPtr':
+        if kind.startswith('PointerCoercion(MutToConstPointer') or kind in ('PtrToPtr', 'FnPtrToPtr', 'PointerExposeProvenance', 'PointerWithExposedProvenance'):
             return v
         if kind == 'Transmute':
             if isinstance(v, BoxPtr):
